@@ -60,6 +60,7 @@ func runC14(c *mon.Ctx) {
 		"with the same number of temp_keys consumed, (2) decode with the real DecodeRSAPad and (3) with the reference decoder to data || padding-bytes-consumed; lengths 145..1000 must be refused; " +
 		"RSAEncryptHashed/RSADecryptHashed: every length 0..235 round-trips and the reference decrypt shows SHA1(data) || data || ...; lengths > 235 refused; " +
 		"every ciphertext is also decoded with one flipped bit and under another key and must fail; random 256-byte garbage must fail; " +
+		"history arm: valid ciphertexts decoded after rejected ones (flipped bit, other key, garbage) and vice versa, rejected ones 3 times in a row, interleaved over all keys and both schemes, sequentially and from 3-4 goroutines; the verdict and the decoded bytes must equal the reference regardless of position; " +
 		"distinct non-trivial = distinct (scheme, key, data length, number of temp_keys consumed / outcome)")
 	c.Assume("RSAPad draws the random padding first and then 32 bytes per temp_key candidate from the supplied source (observed at the io.Reader boundary); refmodel/crypto2_rsapad.go transcribes the nine RSA_PAD steps; math/big, crypto/aes, crypto/sha256, crypto/sha1 are shared")
 	c.Assume("acceptance of a mutated ciphertext by a 2^-256 (SHA256) or 2^-160 (SHA1) coincidence is not a realistic false alarm")
@@ -303,4 +304,5 @@ func runC14(c *mon.Ctx) {
 			mustFail("garbage-hashed", func() ([]byte, error) { return crypto.RSADecryptHashed(g, pk) }, g)
 		}
 	})
+	c14History(c, keys, priv)
 }
